@@ -161,11 +161,15 @@ Text(c) ==
   /\ pen' = pen
 
 (* clear [c]: the whole canvas in colour c (default "white"); neither the  *)
-(* pen position nor the pen style change.                                  *)
+(* pen position nor the pen style change.  The built-in hands the platform *)
+(* the empty string when no colour is given, so `clear ""` is `clear`: the  *)
+(* documents are silent on the empty colour and the specification follows  *)
+(* the interface of the code (never the pen colour: "clear" does not read   *)
+(* the pen).                                                               *)
 Clear(c) ==
   /\ c.op = "clear"
   /\ IF StrArgPanics(c) THEN Panic
-     ELSE LET col == IF c.ns = 0 THEN "white" ELSE StrArg(c)
+     ELSE LET col == IF c.ns = 0 THEN "white" ELSE IF StrArg(c) = "" THEN "white" ELSE StrArg(c)
           IN /\ Draw(Shape("clear", <<>>, "", [style EXCEPT !.fill = col], <<"fill">>, {}))
              /\ pen' = pen
 
